@@ -20,7 +20,7 @@ META: Dict[str, Any] = {
     "level": "exploration",
     "pools": [{"backend": "c"}, {"backend": "c", "optimize": 1}],
     "tiers": {
-        "quick": {"runs": 76000, "chunk": 1000, "wall": 50, "chunk_wall": 240},
+        "quick": {"runs": 76000, "chunk": 1000, "wall": 200, "chunk_wall": 240},
         "thorough": {"runs": 4000000, "chunk": 4000, "wall": 900, "chunk_wall": 600},
     },
     "selftest_runs": 6,
